@@ -321,3 +321,181 @@ class MatStream(Stream):
         if len(live) < npro:
             out.append("replaced_or_expired")
         return out
+
+
+# ============================================================================= stream `calls`
+# calculate_target_power with BOTH values of must_return_power, get_target_power after every call,
+# many actors and expiry sweeps that drop several proposals at once.
+CALLS_HEADER = """From Verif Require Import model.PowerManager.
+Inductive gev := GProp (p : proposal) (must : bool) | GExp (now : Z) (must : bool) | GBounds (s : sysb).
+(* one public call; returns (state, bounds in force, returned value, get_target_power afterwards) *)
+Fixpoint grun (ma : Z) (g : grp) (s : sysb) (h : list gev) : list (option Z * option Z) :=
+  match h with
+  | [] => []
+  | GBounds s' :: h' => (None, g_target g) :: grun ma g s' h'
+  | GProp p must :: h' => let '(g', r) := gcalc g (Some p) s must in (r, g_target g') :: grun ma g' s h'
+  | GExp now must :: h' =>
+      let '(g', r) := gcalc (expire_grp ma now g) None s must in (r, g_target g') :: grun ma g' s h'
+  end.
+Definition case_t := (Z * sysb * list gev * list (option Z * option Z))%type.
+Definition check (c : case_t) : bool :=
+  let '(ma, s, h, exp) := c in
+  list_eqb (pair_eqb optZ_eqb optZ_eqb) (grun ma (mkG false [] None) s h) exp.
+"""
+
+
+def run_calls(case):
+    _, _, _, Matryoshka, _ = _imports()
+    m = Matryoshka(max_proposal_age=timedelta(seconds=case.get("max_age8", 480) / 8.0))
+    cur = mk_sys(case["sys"])
+    out = []
+    for e in case["events"]:
+        if e["t"] == "p":
+            r = watts(m.calculate_target_power(IDS, mk_prop(e), cur, must_return_power=e["must"]))
+        elif e["t"] == "x":
+            m.drop_old_proposals(e["now"] / 8.0)
+            r = watts(m.calculate_target_power(IDS, None, cur, must_return_power=e["must"]))
+        else:
+            cur = mk_sys(e["sys"])
+            r = None
+        out.append([r, watts(m.get_target_power(IDS))])
+    return {"calls": out}
+
+
+def gen_calls_case(rng):
+    many = rng.random() < 0.45
+    nsrc = rng.randint(5, 9) if many else rng.randint(1, 4)
+    case = {"sys": gen_sys(rng, allow_none=rng.random() < 0.1), "events": []}
+    ma = rng.choice([480] * 5 + [4, 724, 8 * 86400])
+    if ma != 480:
+        case["max_age8"] = ma
+    now = rng.randrange(0, 40)
+    n = rng.randint(6, 16) if many else rng.randint(2, 9)
+    prios = rng.sample(range(-3, 12), nsrc) if many and rng.random() < 0.7 else None
+    for k in range(n):
+        r = rng.random()
+        if r < (0.7 if many else 0.6):
+            p = gen_prop(rng, nsrc, now)
+            if prios is not None:
+                p["prio"] = prios[int(p["src"][1:])]
+            if many and k < nsrc:      # make sure many distinct actors are live at once
+                p["src"] = f"a{k}"
+                if prios is not None:
+                    p["prio"] = prios[k]
+            p["must"] = rng.random() < 0.5
+            case["events"].append(p)
+        elif r < 0.88:
+            case["events"].append({"t": "x", "now": now, "must": rng.random() < 0.5})
+        else:
+            case["events"].append({"t": "b", "sys": gen_sys(rng, allow_none=False)})
+        # staggered creation times so that one sweep expires SOME of the live proposals
+        now += rng.choice([0, 1, 8, ma // 4, ma // 3, ma // 2, ma - 1, ma + 1] if many else
+                          [0, 1, 8, 80, ma // 2, ma - 1, ma, ma + 1, ma + 20])
+    if many:
+        case["events"].append({"t": "x", "now": now + rng.choice([0, ma // 2, ma // 2 + 1, ma]), "must": True})
+    return case
+
+
+class CallsStream(Stream):
+    name = "calls"
+    coq_header = CALLS_HEADER
+    coq_targets = ["model/PowerManager.vo"]
+
+    def gen(self, rng, tier):
+        P = lambda src, prio, pref, lo, hi, t, must: {"t": "p", "src": src, "prio": prio, "pref": pref, "lo": lo, "hi": hi, "time": t, "must": must}
+        S = {"incl": [-200, 200], "excl": [-10, 10]}
+        # identical re-send with must=False after the bounds shrank; refresh keeps a proposal alive
+        yield {"sys": S, "events": [P("a", 1, -120, None, None, 0, False), {"t": "b", "sys": {"incl": [-50, 50], "excl": [-10, 10]}},
+                                    P("a", 1, -120, None, None, 8, False), {"t": "x", "now": 16, "must": False}]}
+        yield {"sys": S, "events": [P("a", 1, 30, None, None, 0, False), P("a", 1, 30, None, None, 440, False),
+                                    {"t": "x", "now": 500, "must": False}, {"t": "x", "now": 930, "must": True}]}
+        for _ in range(900 if tier == "quick" else 15000):
+            yield gen_calls_case(rng)
+
+    def run_impl(self, case):
+        return run_calls(case)
+
+    def _events(self, case):
+        rank = src_rank(case)
+        ev = []
+        for e in case["events"]:
+            if e["t"] == "p":
+                ev.append(f"(GProp (mkP {cZ(e['prio'])} {cZ(rank[e['src']])} {copt(e['pref'])} {copt(e['lo'])} {copt(e['hi'])} "
+                          f"{cZ(e['time'] * 125000)}) {'true' if e['must'] else 'false'})")
+            elif e["t"] == "x":
+                ev.append(f"(GExp {cZ(e['now'] * 125000)} {'true' if e['must'] else 'false'})")
+            else:
+                ev.append(f"(GBounds {c_sys(e['sys'])})")
+        return "[" + "; ".join(ev) + "]"
+
+    def to_coq(self, case, obs):
+        exp = "[" + "; ".join(f"({copt(a)}, {copt(b)})" for a, b in obs["calls"]) + "]"
+        return f"(({cZ(case.get('max_age8', 480) * 125000)}, {c_sys(case['sys'])}, {self._events(case)}, {exp}) : case_t)"
+
+    def show_term(self, case, obs):
+        return f"grun {cZ(case.get('max_age8', 480) * 125000)} (mkG false [] None) {c_sys(case['sys'])} {self._events(case)}"
+
+    def shrink(self, case):
+        return shrink_case(case)
+
+    def key(self, case, obs):
+        if not any(b not in (None, 0) for _, b in obs["calls"]):
+            return None
+        return json.dumps([case["sys"], case["events"], case.get("max_age8")], sort_keys=True)
+
+    def labels(self, case, obs):
+        out = []
+        actors = {(e["prio"], e["src"]) for e in case["events"] if e["t"] == "p"}
+        out.append(f"actors={min(len(actors), 9)}")
+        if any(e["t"] in ("p", "x") and not e["must"] for e in case["events"]):
+            out.append("must_return_power_false")
+        if any(r is None and e["t"] != "b" for e, (r, _) in zip(case["events"], obs["calls"])):
+            out.append("call_returned_None")
+        # sweeps that drop >= 2 proposals at once
+        ma = case.get("max_age8", 480)
+        live = {}
+        for e in case["events"]:
+            if e["t"] == "p":
+                live[(e["prio"], e["src"])] = e
+            elif e["t"] == "x":
+                dead = [k for k, p in live.items() if e["now"] - p["time"] > ma]
+                if len(dead) >= 2 and len(live) - len(dead) >= 1:
+                    out.append("sweep_drops_several_keeps_some")
+                for k in dead:
+                    del live[k]
+        return sorted(set(out))
+
+    def oracle(self, case, obs):
+        """After EVERY call the target in force (get_target_power) is the target of a fresh
+        instance fed only the live proposals under the bounds passed to that call; the value a
+        call returns is either None or that target."""
+        out = []
+        systems = [case["sys"]] + [e["sys"] for e in case["events"] if e["t"] == "b"]
+        if any(x["incl"] is None and x["excl"] is None for x in systems):
+            return out
+        s = case["sys"]
+        ma = case.get("max_age8", 480)
+        for i, (e, (r, stored)) in enumerate(zip(case["events"], obs["calls"])):
+            if e["t"] == "b":
+                s = e["sys"]
+                continue
+            if not wf_sys(s):
+                continue
+            prefix = case["events"][: i + 1]
+            live = list(live_proposals(prefix, ma).values())
+            accepted = any(x["t"] == "p" for x in prefix)
+            if live:
+                fresh = run_history({"sys": s, "events": [{**p, "t": "p"} for p in live], "max_age8": ma})["targets"][-1]
+            else:
+                fresh = 0 if accepted else None
+            if stored != fresh:
+                out.append({"what": f"in-force: after call {i} ({'must' if e['must'] else 'no-must'}) get_target_power() = {stored} but the live "
+                                    f"proposals under the bounds of that call give {fresh}", "finding": None})
+                break
+            if r is not None and r != stored:
+                out.append({"what": f"return: call {i} returned {r} but the target in force is {stored}", "finding": None})
+                break
+            if not envelope_ok(s, stored):
+                out.append({"what": f"envelope: target in force {stored} after call {i} is outside the usable bounds {s}", "finding": None})
+                break
+        return out
